@@ -586,4 +586,370 @@ theorem LevelR_add (S : Schema) (hts : TextStableP S) (mk : Bool) (top : FItem) 
   rw [Dfa.run_append, a4]
   exact run_fromArray_some hts _ _ _ _ hrun
 
+/-! ### `place_nodes` keeps the invariant, whatever the unplaced slice (the skeleton of `placeNodes_coh`) -/
+
+theorem placeNodes_vinv_gen (S : Schema) (hts : TextStableP S) (hdet : DetS S) (hf : FillersOK S) (hw : WrapOK S)
+    (hlab : LabelsOK S) (hleaf : PM.FromDom.LeafOk S) (hcl : Closable S) (D g : Nat) (st : FitState) (inv : InStep st)
+    (hv : VInv S D g st.frontier st.placed)
+    (hU1 : st.unplaced.openEnd ≤ spineR st.unplaced.content)
+    (hU2 : st.unplaced.openStart ≤ spineL st.unplaced.content) (hsz : (st.unplaced.size == 0) = false)
+    (hU : UL S st.unplaced.openStart st.unplaced.openEnd st.unplaced.content)
+    (f : Fittable) (hfit : findFittable S st = .ok (some f)) (st' : FitState)
+    (h : placeNodes S st f = .ok st') :
+    ∃ g', VInv S D g' st'.frontier st'.placed := by
+  obtain ⟨lvl, it, hsd, hlvl, hpar, hit, kind, _⟩ := findFittable_kind S st f hfit
+  have hfragment := fragment_eq_lvl hlvl hpar
+  have hfdlt : f.frontierDepth < st.frontier.length := by
+    rcases Nat.lt_or_ge f.frontierDepth st.frontier.length with h1 | h1
+    · exact h1
+    · rw [List.getElem?_eq_none h1] at hit; simp at hit
+  obtain ⟨c1, hc1, hc1f, hc1s⟩ := closeMany_ok S hdet hf (st.frontier.length - 1 - f.frontierDepth)
+    st.frontier st.placed inv.frok (by omega) inv.sp
+  let pre := st.frontier.take f.frontierDepth
+  have hprelen : pre.length = f.frontierDepth := by
+    simp only [pre, List.length_take]; omega
+  have hc1f' : c1.1 = pre ++ [it] := by
+    rw [hc1f, show st.frontier.length - (st.frontier.length - 1 - f.frontierDepth) = f.frontierDepth + 1 by omega]
+    exact take_succ_of_getElem? _ _ _ hit
+  have hc1len : c1.1.length = f.frontierDepth + 1 := by rw [hc1f']; simp [hprelen]
+  have hc1ok : FrOK c1.1 := by rw [hc1f]; exact inv.frok.take _
+  have hc1last : c1.1.getLast? = some it := by rw [hc1f']; simp
+  obtain ⟨q, hq⟩ := inv.frok it (List.mem_of_getElem? hit)
+  have hv1 : VInv S D (min g f.frontierDepth) c1.1 c1.2 := by
+    have := closeMany_vinv S hdet hf hleaf hts hcl D _ g st.frontier st.placed (by omega) inv.frok inv.sp hv c1 hc1
+    rwa [show st.frontier.length - 1 - (st.frontier.length - 1 - f.frontierDepth) = f.frontierDepth by omega] at this
+  have hchain : ChainFrom S (S.dfa it.ty) q (f.wrap.getD []) := by
+    cases kind with
+    | direct _ _ _ _ _ _ hwn => rw [hwn]; trivial
+    | inject _ _ _ _ _ _ _ hwn => rw [hwn]; trivial
+    | empty _ _ _ _ hwn => rw [hwn]; trivial
+    | wrap fst q' w hfst hq' hfw _ hwn =>
+      rw [hwn]
+      rw [hq] at hq'
+      simp only [Option.some.injEq] at hq'
+      subst hq'
+      exact findWrappingTypes_chain S _ _ _ w hfw
+  obtain ⟨c2, hc2, hc2ok, hc2len, hc2s, _, hc2pre, hc2top⟩ :=
+    openMany_ok S hw (f.wrap.getD []) c1.1 c1.2 it q hc1last hq hchain hc1ok hc1s
+  rw [hc1len] at hc2len hc2top
+  simp only [Nat.add_sub_cancel] at hc2top
+  have hv2 : VInv S D (min g f.frontierDepth) c2.1 c2.2 :=
+    openMany_vinv S hlab D _ (f.wrap.getD []) pre it c1.2 q hq hchain (by rw [hprelen]; omega) c2
+      (by rw [← hc1f']; exact hc2) (by rw [← hc1f']; exact hv1)
+  have hitem : ∃ item q0, c2.1[f.frontierDepth]? = some item ∧ item.st = some q0 ∧ item.ty = it.ty ∧
+      (f.wrap.getD [] = [] → item = it ∧ q0 = q) ∧
+      (∀ w0 rest, f.wrap.getD [] = w0 :: rest → (S.dfa it.ty).matchType q w0 = some q0) := by
+    cases hws : f.wrap.getD [] with
+    | nil =>
+      rw [hws] at hc2
+      have := pure_ok hc2
+      subst this
+      have : c1.1[f.frontierDepth]? = some it := by rw [hc1f']; simp [← hprelen]
+      exact ⟨it, q, this, hq, rfl, fun _ => ⟨rfl, rfl⟩, fun _ _ h => by simp at h⟩
+    | cons w0 rest =>
+      have htop := hc2top w0 rest hws
+      rw [hws] at hchain
+      obtain ⟨q', hq'⟩ := Option.isSome_iff_exists.1 hchain.2.1
+      refine ⟨_, q', htop, by simp [hq'], rfl, fun h => by simp at h, ?_⟩
+      intro w0' rest' h
+      simp only [List.cons.injEq] at h
+      rw [← h.1]; exact hq'
+  obtain ⟨item0, q00, hitem0, hitq0, hitty0, hq0nil, hq0cons⟩ := hitem
+  unfold placeNodes at h
+  rw [FM.bind_eq hc1, FM.bind_eq hc2] at h
+  simp only [hfragment] at h
+  obtain ⟨item, hgi, h⟩ := FM.bind_ok h
+  have hie : item = item0 := by
+    have := getItem_ok hgi
+    rw [hitem0] at this
+    simpa using this.symm
+  subst hie
+  obtain ⟨q0, hgs, h⟩ := FM.bind_ok h
+  have hq0e : q0 = q00 := by
+    have := getSt_ok hgs
+    rw [hitq0] at this
+    simpa using this.symm
+  subst hq0e
+  obtain ⟨q1, hq1, h⟩ := FM.bind_ok h
+  have hq1 := liftRaise_ok hq1
+  obtain ⟨tk, htk, h⟩ := FM.bind_ok h
+  obtain ⟨p, hp, h⟩ := FM.bind_ok h
+  obtain ⟨top, _, h⟩ := FM.bind_ok h
+  obtain ⟨c3, hc3, h⟩ := FM.bind_ok h
+  obtain ⟨fr4, hpush, h⟩ := FM.bind_ok h
+  obtain ⟨u', _, h⟩ := FM.bind_ok h
+  have := pure_ok h
+  subst this
+  simp only
+  have hset_len : (c2.1.set f.frontierDepth ⟨item.ty, some tk.2.1⟩).length = c2.1.length := List.length_set
+  have hset_ok : FrOK (c2.1.set f.frontierDepth ⟨item.ty, some tk.2.1⟩) := FrOK_set hc2ok _ _ ⟨_, rfl⟩
+  cases hws : f.wrap.getD [] with
+  | cons w0 rest =>
+    rw [hws] at hc2len
+    -- wrappers were opened: nothing is taken, the frontier entry keeps its match
+    have hnothing : tk = (0, q1, []) ∧ lvl.2 ≠ [] ∧ q1 = q0 := by
+      cases kind with
+      | direct _ _ _ _ _ _ hwn => rw [hwn] at hws; simp at hws
+      | inject _ _ _ _ _ _ _ hwn => rw [hwn] at hws; simp at hws
+      | empty _ _ _ _ hwn => rw [hwn] at hws; simp at hws
+      | wrap fst q' w hfst hq' hfw hinj hwn =>
+        rw [hwn] at hws
+        simp only [Option.getD_some] at hws
+        subst hws
+        rw [hq] at hq'
+        simp only [Option.some.injEq] at hq'
+        subst hq'
+        obtain ⟨rest', hl2⟩ : ∃ rest', lvl.2 = fst :: rest' := by
+          cases hl : lvl.2 with
+          | nil => rw [hl] at hfst; simp at hfst
+          | cons a l => rw [hl] at hfst; simp at hfst; subst hfst; exact ⟨l, rfl⟩
+        have hm0 := hq0cons w0 rest (by rw [hwn]; rfl)
+        have hnm : (S.dfa it.ty).matchType q0 (S.tyOf fst) = none := by
+          by_cases hx : S.tyOf fst < S.nodes.size
+          · exact hw.2 it.ty q (S.tyOf fst) w0 rest q0 hx hfw hm0
+          · cases hmm : (S.dfa it.ty).matchType q0 (S.tyOf fst) with
+            | none => rfl
+            | some y => exact absurd (hlab it.ty q0 _ (Dfa.mem_of_matchType hmm)) hx
+        have hq1' : q1 = q0 := by
+          rw [hinj] at hq1
+          simpa [Schema.types, Dfa.run] using hq1.symm
+        rw [hl2, hinj, hq1', hitty0, takeLoop_nomatch S _ _ _ _ _ fst rest' 0 q0 _ hnm] at htk
+        have := pure_ok htk
+        rw [hl2, ← this, hq1']
+        exact ⟨rfl, by simp, rfl⟩
+    obtain ⟨htk0, hlne, hq10⟩ := hnothing
+    subst htk0
+    subst hq10
+    have hsp' : rspineOK f.frontierDepth c2.2 := rspineOK_le _ _ _ (by rw [hc2len]; simp only [List.length_cons]; omega) hc2s
+    have hpe : p = c2.2 := by
+      have := addToFragment_nil _ _ hsp'
+      simp only [fromArray, addNodes, List.foldl_nil] at hp
+      rw [this] at hp
+      simpa using hp.symm
+    subst hpe
+    have hsetid : c2.1.set f.frontierDepth ⟨item.ty, some q1⟩ = c2.1 := by
+      have : (⟨item.ty, some q1⟩ : FItem) = item := by
+        cases item with
+        | mk ty st => simp only at hitq0; rw [hitq0]
+      rw [this]
+      exact set_self_of_getElem? _ _ _ hitem0
+    rw [hsetid] at hc3
+    have hte : ((0 : Nat) == lvl.2.length) = false := by
+      cases hl : lvl.2 with
+      | nil => exact absurd hl hlne
+      | cons a l => rfl
+    simp only [hte, Bool.false_and, Bool.false_eq_true, if_false] at hc3 hpush
+    have := pure_ok hc3
+    subst this
+    have e0 : (-1 : Int).toNat = 0 := rfl
+    rw [e0] at hpush
+    have := pure_ok hpush
+    subst this
+    exact ⟨_, hv2⟩
+  | nil =>
+    rw [hws] at hc2len
+    simp only [List.length_nil, Nat.add_zero] at hc2len
+    obtain ⟨hie, hqe⟩ := hq0nil hws
+    subst hie
+    subst hqe
+    have hc2e : c2 = c1 := by
+      rw [hws] at hc2
+      exact (pure_ok hc2).symm
+    subst hc2e
+    -- what was added and the match after it
+    obtain ⟨added, ha1, ha2⟩ := takeLoop_run S _ _ _ _ _ _ _ _ _ tk htk
+    have hrun : (S.dfa item.ty).run q0 (S.types tk.2.2) = some tk.2.1 := by
+      rw [ha1, types_append, Dfa.run_append, hq1]
+      exact ha2
+    have hfr3 : c2.1.set f.frontierDepth ⟨item.ty, some tk.2.1⟩ = pre ++ [⟨item.ty, some tk.2.1⟩] := by
+      rw [hc1f', ← hprelen]
+      exact set_append_last pre item _
+    rw [hfr3] at hc3
+    -- what is known of the fragment the nodes are taken from
+    have hcon := sliceLevel_contentAt hlvl
+    obtain ⟨oe', hUF, hdisj⟩ := UL_contentAt S f.sliceDepth _ _ _ _ hU hcon hsd
+    have hinjv : S.checkKids (f.inject.getD []) = true ∧ MarksOK S item.ty (f.inject.getD []) := by
+      cases kind with
+      | direct _ _ _ _ _ hinj _ => rw [hinj]; exact ⟨by simp, by intro c hc; simp at hc⟩
+      | empty _ _ _ hinj _ => rw [hinj]; exact ⟨by simp, by intro c hc; simp at hc⟩
+      | wrap _ _ _ _ _ _ hinj _ => rw [hinj]; exact ⟨by simp, by intro c hc; simp at hc⟩
+      | inject fst q' inj hfst hq' hfill hinj hwn =>
+        rw [hinj]
+        simp only [Option.getD_some]
+        have hn := fillOpt_nodes S hdet hleaf _ _ _ _ inj hfill
+        exact ⟨(checkKids_iff S inj).2 (fun n hn' => (hn n hn').1),
+          MarksOK_of_nil S _ inj (fun n hn' => (hn n hn').2)⟩
+    have hset_ok3 : FrOK (pre ++ [⟨item.ty, some tk.2.1⟩]) := by rw [← hfr3]; exact hset_ok
+    -- the open-end count against the open depth of the fragment
+    have hFE : lvl.2 = [] → ¬ (0 : Int) <
+        ((fsize lvl.2 : Int) + f.sliceDepth) - ((fsize st.unplaced.content : Int) - st.unplaced.openEnd) := by
+      intro hF0 hpos
+      have htk0 : tk.1 = 0 := by
+        rw [hF0] at htk
+        have := pure_ok htk
+        rw [← this]
+      have hfr4ok : FrOK c3.1 := by
+        rcases ite_ok_cases hc3 with ⟨_, hc3'⟩ | ⟨_, hc3'⟩
+        · obtain ⟨x', hx', hx1, _⟩ := closeFrontierNode_ok S hdet hf _ p hset_ok3 (by simp)
+            (by
+              obtain ⟨r0, hr0, hr0s, _⟩ := addToFragment_ok f.frontierDepth c2.2 (fromArray tk.2.2)
+                (by have := hc2s; rwa [hc2len, Nat.add_sub_cancel] at this)
+              have : r0 = p := by rw [hr0] at hp; exact Except.ok.inj hp
+              subst this
+              simpa [hprelen] using hr0s)
+          have : x' = c3 := by rw [hx'] at hc3'; exact Except.ok.inj hc3'
+          subst this
+          rw [hx1]; exact hset_ok3.dropLast
+        · have := pure_ok hc3'
+          subst this
+          exact hset_ok3
+      have hsp := pushOpenEnd_spec S _ lvl.2 _ fr4 hpush hfr4ok
+      rw [htk0, hF0] at hsp
+      simp only [List.length_nil, beq_self_eq_true, if_true] at hsp
+      rw [hF0] at hpos
+      exact hsp.2.2 (by omega) rfl
+    have hK : (0 : Int) < ((fsize lvl.2 : Int) + f.sliceDepth) - ((fsize st.unplaced.content : Int) - st.unplaced.openEnd) →
+        oe' = (oe' - 1) + 1 ∧ ((fsize lvl.2 : Int) + f.sliceDepth) - ((fsize st.unplaced.content : Int) - st.unplaced.openEnd)
+          = ((oe' - 1 + 1 : Nat) : Int) := by
+      intro hpos
+      have hne : lvl.2 ≠ [] := fun h0 => hFE h0 hpos
+      obtain ⟨hpure, hsdle⟩ := pure_of_size f.sliceDepth st.unplaced.content lvl.2 st.unplaced.openEnd hcon hne hU1
+        (by omega)
+      have e2 := pureTo_fsize f.sliceDepth _ _ hpure
+      rcases hdisj with ⟨_, he⟩ | ⟨hnp, _⟩
+      · omega
+      · exact absurd hpure hnp
+    have hK' : ¬ (0 : Int) < ((fsize lvl.2 : Int) + f.sliceDepth) - ((fsize st.unplaced.content : Int) - st.unplaced.openEnd) →
+        oe' = 0 := by
+      intro hno
+      rcases hdisj with ⟨hpure, he⟩ | ⟨_, he⟩
+      · have e2 := pureTo_fsize f.sliceDepth _ _ hpure
+        omega
+      · exact he
+    have hskip : ∀ next, lvl.2 = [next] → ¬ ((0 : Int) <
+        ((fsize lvl.2 : Int) + f.sliceDepth) - ((fsize st.unplaced.content : Int) - st.unplaced.openEnd) ∧
+        st.unplaced.openStart - f.sliceDepth ≠ 0 ∧ fsize next.kids = 0) := by
+      intro next hF1 ⟨hpos, hx, hk0⟩
+      obtain ⟨hpure, hsdle⟩ := pure_of_size f.sliceDepth st.unplaced.content lvl.2 st.unplaced.openEnd hcon
+        (by rw [hF1]; simp) hU1 (by omega)
+      have e1 := pureTo_spineR f.sliceDepth _ _ hpure
+      have e2 := pureTo_fsize f.sliceDepth _ _ hpure
+      have e3 := pureTo_spineL f.sliceDepth _ _ hpure
+      rw [hF1] at e1 e2 e3 hpos
+      obtain ⟨z1, z2⟩ := fsize_zero_spine next.kids hk0
+      simp only [Slice.size, beq_eq_false_iff_ne, ne_eq] at hsz
+      cases next with
+      | elem t a m kids =>
+        simp only [Node.kids] at hk0 z1 z2
+        rw [spineR_singleton_elem, z1] at e1
+        simp only [spineL, z2] at e3
+        simp only [fsize, Node.size_elem, hk0] at e2 hpos
+        apply hsz
+        omega
+      | text s m =>
+        simp only [spineL] at e3
+        omega
+      | leaf t a m =>
+        simp only [spineL] at e3
+        omega
+    have hgood := takeLoop_good_UL S hdet hleaf hts _ item.ty _ _ (oe' - 1) oe' lvl.2 q1 _ tk hUF hK hK' hskip hFE htk
+      hinjv.1 hinjv.2
+    have hpsp : rspineOK f.frontierDepth p := by
+      obtain ⟨r0, hr0, hr0s, _⟩ := addToFragment_ok f.frontierDepth c2.2 (fromArray tk.2.2)
+        (by have := hc2s; rwa [hc2len, Nat.add_sub_cancel] at this)
+      have : r0 = p := by rw [hr0] at hp; exact Except.ok.inj hp
+      subst this
+      exact hr0s
+    cases hk : ((if (tk.1 == lvl.2.length) = true then
+        ((fsize lvl.2 : Int) + f.sliceDepth) - ((fsize st.unplaced.content : Int) - st.unplaced.openEnd)
+        else -1) : Int).toNat with
+    | zero =>
+      rw [hk] at hpush
+      have := pure_ok hpush
+      subst this
+      have hno : ¬ (tk.1 = lvl.2.length ∧ (0 : Int) <
+          ((fsize lvl.2 : Int) + f.sliceDepth) - ((fsize st.unplaced.content : Int) - st.unplaced.openEnd)) := by
+        intro ⟨he, hpos⟩
+        rw [he] at hk
+        simp only [beq_self_eq_true, if_true] at hk
+        omega
+      have hvk := hgood.2.2 hno
+      have hv3 : VInv S D (min g f.frontierDepth) (pre ++ [⟨item.ty, some tk.2.1⟩]) p :=
+        addTaken_vinv S hts D _ pre item c2.2 p q0 tk.2.1 tk.2.2 hitq0 hrun hvk hgood.1 (by rw [hprelen]; omega)
+          (by rw [hprelen]; exact hp) (by rw [← hc1f']; exact hv2)
+      rcases ite_ok_cases hc3 with ⟨hcnd, hc3'⟩ | ⟨_, hc3'⟩
+      · simp only [Bool.and_eq_true, decide_eq_true_eq] at hcnd
+        have := closeFrontierNode_vinv S hdet hleaf hts hcl D _ _ p (by have := hcnd.2; omega)
+          (by simpa [hprelen] using hpsp) hv3 c3 hc3'
+        exact ⟨_, this⟩
+      · have := pure_ok hc3'
+        subst this
+        exact ⟨_, hv3⟩
+    | succ k =>
+      have hte : (tk.1 == lvl.2.length) = true := by
+        cases hb : (tk.1 == lvl.2.length) with
+        | true => rfl
+        | false => rw [hb] at hk; simp at hk
+      rw [hte] at hk
+      simp only [if_true] at hk
+      have hoec : ((fsize lvl.2 : Int) + f.sliceDepth) - ((fsize st.unplaced.content : Int) - st.unplaced.openEnd)
+          = ((k + 1 : Nat) : Int) := by omega
+      obtain ⟨hoe1, hoe2⟩ := hK (by omega)
+      have hbk : oe' - 1 = k := by omega
+      have hopen := hgood.2.1 ⟨by simpa using hte, by omega⟩
+      rw [hbk] at hopen
+      simp only [hte, if_true, hoec] at hc3 hpush htk
+      have hnn : ¬ (((k + 1 : Nat) : Int) < 0) := by omega
+      simp only [hnn, decide_false, Bool.false_and, Bool.and_false, Bool.false_eq_true, if_false] at hc3
+      have := pure_ok hc3
+      subst this
+      simp only [Int.toNat_natCast] at hpush
+      obtain ⟨hlen4, _, hne4⟩ := pushOpenEnd_spec S (k + 1) lvl.2 _ fr4 hpush hset_ok3
+      obtain ⟨hsp, pre', r, ln, os', hl, hadd, hcls⟩ := placeTaken_last S (S.dfa item.ty) item.ty st.unplaced
+        f.sliceDepth lvl.2 hcon (hne4 (by omega)) hU1 hU2 hsz k hoec q1 (f.inject.getD []) tk htk
+        (by simpa using hte)
+      obtain ⟨pushed, t, a, m, kk, e1, e2, ⟨e0, rest0, e3, e4⟩, e5⟩ :=
+        pushOpenEnd_coh S D (min g f.frontierDepth) [] k lvl.2 _ fr4 ln os' _ r (0 + pre.length + 1) hpush hl
+          (rspineOK_singleton_of_last hl hsp) hcls (by rw [hprelen]; omega)
+      obtain ⟨pre0, r0, hadd0, hpre0, t0, a0, m0, kk0, er0, hm0, ht0, hmk0, hrl0⟩ := hopen
+      have hinj := List.append_inj' (hadd0.symm.trans hadd) rfl
+      obtain ⟨ep, er⟩ := hinj
+      simp only [List.cons.injEq, and_true] at er
+      subst ep
+      rw [er0, e2] at er
+      simp only [Node.elem.injEq] at er
+      obtain ⟨q1e, q2e, q3e, q4e⟩ := er
+      subst q1e; subst q2e; subst q3e; subst q4e
+      have hplen : pushed.length = k + 1 := by
+        rw [e1] at hlen4
+        simp only [List.length_append] at hlen4
+        omega
+      have hvalr : ValR S (LevelR S) true 0 pushed kk0 :=
+        ValR_of_coh_RL S D (min g f.frontierDepth) [] pushed _ k kk0 hplen (by rw [hprelen]; omega) e5 hrl0 (by
+          intro it' hit'
+          rw [e3] at hit'
+          simp only [List.head?_cons, Option.some.injEq] at hit'
+          subst hit'
+          rw [e4]
+          exact ⟨ht0, hmk0⟩)
+      have hp' := hp
+      rw [← hprelen] at hp'
+      have hfin : VInv S D (min g f.frontierDepth) (pre ++ (⟨item.ty, some tk.2.1⟩ :: pushed)) p := by
+        refine VInv_top S D _ (fromArray tk.2.2) item (⟨item.ty, some tk.2.1⟩ :: pushed)
+          (by intro x hx; simp at hx; rw [← hx]) (by simp) pre c2.2 p (by rw [hprelen]; omega) hp'
+          (by rw [← hc1f']; exact hv2) ?_
+        intro mk' x' F0 hF0
+        obtain ⟨h1, h2⟩ := hF0
+        rw [e3]
+        rw [hadd0, er0, fromArray_snoc_elem, fappend_snoc_elem']
+        refine ⟨_, t0, a0, m0, kk0, rfl, e4.symm, leftOpenValid_fappend S x' F0 _ h1 (fromArray_checkKids S _ hpre0),
+          ?_, hm0, by rw [← e3]; exact hvalr⟩
+        have := LevelR_add S hts mk' item q0 tk.2.1 F0 tk.2.2 h2 hitq0 hrun hgood.1
+        rw [hadd0, er0, fromArray_snoc_elem, fappend_snoc_elem'] at this
+        exact this
+      refine ⟨min g f.frontierDepth, ?_⟩
+      rw [e1]
+      simpa using hfin
+
+
 end PM
